@@ -11,6 +11,11 @@
 EXTENDS InterpFn, TraceLib
 
 Acc(fn) == IF fn = "cubic" THEN 9 ELSE 3     \* digits of agreement with the true function
+\* ... which a cubic spline can only deliver when the table resolves the function: for the transcendental test function
+\* (fourth derivative at most 0.015 per unit^4) the spline error is about 1e-3 h^4 with end effects; h = largest gap of the
+\* table in tenths of a unit
+AccFor(fn, h10) == IF fn = "cubic" THEN 9
+                   ELSE IF h10 <= 5 THEN 3 ELSE IF h10 <= 10 THEN 2 ELSE IF h10 <= 20 THEN 1 ELSE 0
 DAcc(fn) == IF fn = "cubic" THEN 4 ELSE 1    \* same, for derivatives (finite differences)
 
 \* the observed state after the call equals the state the model predicts
@@ -47,7 +52,7 @@ TEval ==
        /\ o.out = "ok" =>
             /\ Ev.rules = o.rules
             /\ Ev.shapeOut = ShapeOf(Ev.shape, Len(Ev.xs), Ev.rvc)
-            /\ Ev.d >= Acc(Ev.fn)
+            /\ Ev.d >= AccFor(Ev.fn, Ev.hmax10)
     /\ Matches(Ev.st, s') /\ TableOK(Ev.st)
 
 TDeriv ==
